@@ -189,49 +189,32 @@ func computeBoundIndex(index, length Int) Int {
 }
 
 func computeRangeSlice(r *Range, s *Slice) (Object, error) {
-	start, err := getIndexWithDefault(s.Start, 0)
-	if err != nil {
-		return nil, err
-	}
-	stop, err := getIndexWithDefault(s.Stop, r.Length)
-	if err != nil {
-		return nil, err
-	}
-	step, err := getIndexWithDefault(s.Step, 1)
+	// Normalise the slice against the length of the range exactly as
+	// for any other sequence: start and stop end up in [-1, Length]
+	start, stop, step, sliceLength, err := s.GetIndices(int(r.Length))
 	if err != nil {
 		return nil, err
 	}
 
-	if step == 0 {
-		return nil, ExceptionNewf(ValueError, "slice step cannot be zero")
-	}
-	start = computeNegativeIndex(start, r.Length)
-	stop = computeNegativeIndex(stop, r.Length)
-
-	start = computeBoundIndex(start, r.Length)
-	stop = computeBoundIndex(stop, r.Length)
-
-	startIndex := computeItem(r, start)
-	stopIndex := computeItem(r, stop)
-	stepIndex := step * r.Step
-
-	var sliceLength Int
-	if start < stop {
-		if stepIndex < 0 {
-			startIndex, stopIndex = stopIndex-1, startIndex-1
+	startIndex := computeItem(r, Int(start))
+	stopIndex := computeItem(r, Int(stop))
+	stepIndex := Int(step) * r.Step
+	if stepIndex/r.Step != Int(step) {
+		// The combined step does not fit an Int, so at most one
+		// element is selected: describe the result with a unit step
+		// of the right sign
+		stepIndex = 1
+		if (step < 0) != (r.Step < 0) {
+			stepIndex = -1
 		}
-	} else {
-		if stepIndex < 0 {
-			startIndex, stopIndex = stopIndex+1, startIndex+1
-		}
+		stopIndex = startIndex + stepIndex*Int(sliceLength)
 	}
-	sliceLength = computeRangeLength(startIndex, stopIndex, stepIndex)
 
 	return &Range{
 		Start:  startIndex,
 		Stop:   stopIndex,
 		Step:   stepIndex,
-		Length: sliceLength,
+		Length: Int(sliceLength),
 	}, nil
 }
 
